@@ -271,7 +271,16 @@ func restoreAt(src, dst *search.Constraint) {}
 type timeKey func(blob.Ref) (time.Time, bool)
 
 func checkConstraint(r *ev.Run, w *sworld, wid string, ci int, c *search.Constraint, modes []mode, g *cgen) {
-	cj, _ := json.Marshal(c)
+	cj, jerr := json.Marshal(c)
+	if jerr == nil {
+		var back search.Constraint
+		jerr = json.Unmarshal(cj, &back)
+	}
+	if jerr != nil {
+		// harness self-check: every generated constraint must survive the JSON round trip it is sent through
+		r.Inconclusive(fmt.Sprintf("%s: generated constraint #%d is not expressible in JSON: %v", wid, ci, jerr))
+		return
+	}
 	// reference match set
 	var M []blob.Ref
 	for _, b := range w.allRefs {
